@@ -187,6 +187,52 @@ def _loading_case(rec, rng, cid, scratch):
                   "loading/folder-order/" + name,
                   "%s returned %s, expected %s" % (name, have, want), case)
         judge_callbacks(rec, cb, case, name)
+    # ---- the same folder addressed in other ways: relative to the working
+    # directory (with ".."), through a symbolic link below a hidden
+    # directory, with a trailing "." component
+    import os
+    names_want = [w for w in want]
+    sib = scratch / ("cwd_%d_%d" % tuple(cid))
+    sib.mkdir()
+    hid = scratch / (".cfg_%d_%d" % tuple(cid)) / "share"
+    hid.mkdir(parents=True)
+    try:
+        os.symlink(d, hid / "linked")
+        linked = hid / "linked"
+    except OSError:
+        linked = None
+    old_cwd = os.getcwd()
+    try:
+        os.chdir(sib)
+        routes = [("relative path with '..'",
+                   pathlib.Path("..") / d.name),
+                  ("path with a '.' component", d / ".")]
+        if linked is not None:
+            routes.append(("folder below a hidden directory", linked))
+        for rname, rpath in routes:
+            for name, loader in [("load_group", load_group),
+                                 ("load_data", load_data)]:
+                cb = []
+                try:
+                    got = loader(rpath, callback=cb.append)
+                except BaseException as e:  # noqa
+                    rec.violation("loading/route-raises/" + name,
+                                  "%s(%s) raised %s: %s"
+                                  % (name, rname, type(e).__name__,
+                                     str(e)[:80]), dict(case, route=rname))
+                    continue
+                rec.event("folders loaded through relative / hidden / "
+                          "dotted paths")
+                have = sorted((pathlib.Path(i.path).name, i.enum)
+                              for i in got)
+                rec.check(have == sorted(names_want),
+                          "loading/depends-on-how-the-folder-is-addressed",
+                          "%s through a %s returned %d curves %s, expected "
+                          "%d" % (name, rname, len(have), have[:4],
+                                  len(names_want)), dict(case, route=rname))
+                judge_callbacks(rec, cb, case, name + " " + rname)
+    finally:
+        os.chdir(old_cwd)
     # ---- metadata override reaches the loaded objects
     k_over = float(rng.uniform(.01, .5))
     f0 = sorted(layout)[0]
